@@ -558,6 +558,25 @@ Proof.
   split; [apply cond_kchange; apply do_exit_kchange|]. vm_compute. repeat split.
 Qed.
 
+(** WaitFg's [r_consumed]: statuses consumed + statuses C06's loop leaves = statuses delivered
+    (whatever the two status registers hold). *)
+Theorem C07_waitfg_consumed : forall pids pl cc gid evs s status status2 settled consumed side,
+  (WaitFg.r_consumed (WaitFg.wait_loop pids pl cc (map WaitFgJobs.enc evs) status settled consumed side) +
+   length (Jobs.w_left (Jobs.wait_loop evs s gid pids pl cc settled status2)) = consumed + length evs)%nat.
+Proof. exact WaitFgJobs.waitfg_consumed. Qed.
+
+(** WaitFg's error answers (kind 255, errno [v]; C06's model has none): after statuses on which
+    C06's loop is still blocked the loop breaks at the error; ECHILD keeps the status C06's loop
+    holds, any other errno becomes the status; the error is consumed, the rest is left. *)
+Theorem C07_waitfg_error_after_blocked : forall pids pl cc gid, ~ In 0 pids ->
+  forall evs s status settled consumed side p v post,
+  Jobs.w_blocked (Jobs.wait_loop evs s gid pids pl cc settled status) = true ->
+  let r := WaitFg.wait_loop pids pl cc (map WaitFgJobs.enc evs ++ (p, 255, v) :: post) status settled consumed side in
+  WaitFg.r_status r =
+    (if v =? WaitFg.ECHILD then Jobs.w_status (Jobs.wait_loop evs s gid pids pl cc settled status) else v) /\
+  WaitFg.r_left r = post /\ WaitFg.r_consumed r = (consumed + S (length evs))%nat.
+Proof. exact WaitFgJobs.waitfg_error_after_blocked. Qed.
+
 Print Assumptions C07_prompt_owner.
 Print Assumptions C07_owner_cases.
 Print Assumptions C07_bg_never_owner.
@@ -584,3 +603,5 @@ Print Assumptions C07_settled_members_invariant.
 Print Assumptions C07_resumed_wait_returns_settled.
 Print Assumptions C07_terminal_follows_settledness.
 Print Assumptions C07_kernel_actions_kchange.
+Print Assumptions C07_waitfg_consumed.
+Print Assumptions C07_waitfg_error_after_blocked.
